@@ -7,6 +7,7 @@ a public operation was served, on a CPU where the accelerated path is selected, 
 depend on key and data (secret-indexed table lookups).
 """
 import json, os, re, struct, subprocess, time
+import buildtags
 
 REPO = os.environ.get("VERIF_REPO", "/repo")
 FORBIDDEN = [
@@ -41,13 +42,7 @@ def run(out, unit, tier, seed, workdir, overlay):
         out.inconclusive.append("paths: cannot build vtrace: %s" % e)
         return
     binp = os.path.join(workdir, "paths_sm4.test")
-    p = subprocess.run(["go", "test", "-c", "-vet=off", "-tags", "verif", "-overlay", overlay, "-o", binp, "./sm4/"], cwd=REPO, env=go_env(), capture_output=True, text=True)
-    if p.returncode != 0:
-        # declarations of sealAsm/openAsm/copyAsm/needExpand differ from the ones called directly: stub the adapters out
-        p2 = subprocess.run(["go", "test", "-c", "-vet=off", "-tags", "verif,verifnoasm", "-overlay", overlay, "-o", binp, "./sm4/"], cwd=REPO, env=go_env(), capture_output=True, text=True)
-        if p2.returncode == 0:
-            out.notes.setdefault("degraded_builds", []).append("engine_paths: test binary built with tag verifnoasm (direct calls of sealAsm/openAsm/copyAsm/needExpand unavailable on this tree)")
-            p = p2
+    p = buildtags.build_sm4(binp, overlay, REPO, go_env(), out, "engine_paths")
     if p.returncode != 0 or not os.path.exists(binp):
         out.inconclusive.append("paths: build failed: " + (p.stdout + p.stderr)[-800:])
         return
